@@ -669,7 +669,9 @@ class ModelBase(object):
 
         cls_dict = odict({'__module__': cls.__module__, '__doc__': cls.__doc__})
 
-        if getattr(cls, '__orig__', None) is None:
+        # a class that merely inherits from a customized class (eg. Uuid) is a
+        # type of its own, not a customization of its parent's original.
+        if cls.__dict__.get('__orig__', None) is None:
             cls_dict['__orig__'] = cls
         else:
             cls_dict['__orig__'] = cls.__orig__
